@@ -195,7 +195,7 @@ fn vq_c04_rsfc_max_stream_data_on_transmit() {
         // RFC 9000 19.10: MAX_STREAM_DATA frame type 0x11, Stream ID (i), Maximum Stream Data (i)
         assert!(context.buf[0] == 0x11 && context.buf[1] as u64 == sid, "C04/rsfc.on_transmit/frame_is_max_stream_data_for_this_stream");
         let wire = context.varint_at(2);
-        assert!(wire as i128 == old.advertised, "C04/rsfc.on_transmit/max_stream_data_value_is_advertised");
+        assert!(rsfc_transmit_wire_is_advertised(old, true, wire as i128), "C04/rsfc.on_transmit/max_stream_data_value_is_advertised");
         assert!(wire as i128 <= old.released + old.window, "C04/rsfc.on_transmit/wire_credit_le_released_plus_window");
     }
     kani::cover!(context.frames == 1, "reach:max_stream_data_written");
